@@ -24,6 +24,8 @@ def run(modname: str, key: str, call: dict) -> dict:
     args = call.get("args", [])
     kwargs = call.get("kwargs", {})
     allowed = _declared_raises(o.fn)
+    if o.hashseed_public is not None:
+        return _hashseed_replay(o, out, args, kwargs)
     try:
         r = o.fn(*args, **kwargs)
         out["returns"] = repr(r)
@@ -51,12 +53,53 @@ def run(modname: str, key: str, call: dict) -> dict:
     return out
 
 
+_SEED_SCRIPT = """
+import sys, json, hashlib
+sys.path.insert(0, '/repo')
+from pyxform.xls2xform import convert
+wb = json.loads(sys.argv[1])
+try:
+    r = convert(wb)
+    blob = json.dumps([r.xform, r.warnings, r.itemsets])
+except Exception as e:
+    blob = 'ERR ' + type(e).__name__ + ' ' + str(e)
+print(hashlib.sha1(blob.encode()).hexdigest())
+"""
+
+
+def _hashseed_replay(o, out, args, kwargs):
+    """Replay for set-order counterexamples: convert the same workbook through the public
+    API under different PYTHONHASHSEED values; any difference reproduces the violation."""
+    import inspect
+    import subprocess
+
+    names = list(inspect.signature(o.fn).parameters)
+    bound = dict(zip(names, args))
+    bound.update(kwargs)
+    for k, v in (getattr(o.fn, "__globals__", {}) or {}).items():
+        if k in ("variant",) and k not in bound:
+            bound[k] = v
+    pub = o.hashseed_public(bound)
+    wb = json.dumps(pub["workbook"])
+    seen = {}
+    for seed in range(0, 24):
+        env = dict(os.environ, PYTHONHASHSEED=str(seed))
+        p = subprocess.run(["/venv/bin/python", "-c", _SEED_SCRIPT, wb], capture_output=True, text=True, env=env, timeout=120)
+        seen.setdefault(p.stdout.strip(), []).append(seed)
+    out["public"] = {"workbook": pub["workbook"], "outputs_by_seed": {k[:10]: v for k, v in seen.items()}}
+    out["ok"] = len(seen) == 1
+    out["returns"] = f"{len(seen)} distinct outputs over PYTHONHASHSEED 0..23"
+    return out
+
+
 def _declared_raises(fn):
     import builtins
 
     res = []
     for ln in (fn.__doc__ or "").splitlines():
         s = ln.strip()
+        if s.startswith("vraises:"):
+            s = s[1:]
         if s.startswith("raises:"):
             for name in s[len("raises:") :].split(","):
                 name = name.strip()
